@@ -120,6 +120,10 @@ v('C14', 'fire', 'inertial_sensor.py', '                if actual != nominal:', 
 v('C14', 'silent', 'inertial_sensor.py', '                if actual != nominal:', '                if not actual == nominal:', 'same exact test, other spelling')
 v('C14', 'silent', 'inertial_sensor.py', '                if actual != nominal:', '                if actual - nominal != 0:', 'same exact test on the deviation')
 FL = 'filters.py'
+v('C09 C12', 'silent', FL, '    end_time = increments.index[-1]', '    end_time = increments.index.max()', 'same end of a sorted index, other spelling')
+v('C09', 'silent', FL, '    end_time = increments.index[-1]', '    end_time = float(np.max(increments.index))')
+v('C09', 'fire', FL, '    end_time = increments.index[-1]', '    end_time = increments.index[-2]', 'the run stops one increment early')
+v('C10 C11', 'silent', FL, '    end_time = times[-1]', '    end_time = times.max()')
 v('C13 C12 C09', 'fire', FL, '    integrator = strapdown.Integrator(initial_pva, with_altitude)', '    integrator = strapdown.Integrator(initial_pva)', 'clause review: the altitude mode does not reach the integrator')
 v('C13 C11', 'fire', FL, '    times = trajectory_nominal.index\n\n    error_model = InsErrorModel(with_altitude)', '    times = trajectory_nominal.index\n\n    error_model = InsErrorModel()', 'clause review: the altitude mode does not reach the error model of the feedforward filter')
 v('C13', 'silent', FL, '    integrator = strapdown.Integrator(initial_pva, with_altitude)', '    integrator = strapdown.Integrator(initial_pva, with_altitude=with_altitude)')
